@@ -494,7 +494,9 @@ def typeDefinitionWith (k : Knot) (bt : P Ty) : P Ty :=
         pmap (many0 (seq (barOp '|') (intersectionType bt))) fun rest =>
           if rest.isEmpty then first else Ty.union (first :: rest)))
 
-/-! ### The left-factored grammar (candidate repair of C18-F1, notes/C18-fixes/01)
+/-! ### The left-factored grammar (repair of C18-F1: /repo 33df1c7 + notes/C18-fixes/03) — THE MODEL OF
+THE CODE; the alternatives above (`partialType`, `processType`, `groupType` inside `baseTypeWith` /
+`functionIoType`) are the grammar before the repair and stay as the other side of the equality
 
 `base_type`, `function_input_type` and `function_output_type` hand every `(`-headed type to ONE
 function that reads the field list once and decides afterwards (partial type / parenthesised process
@@ -667,11 +669,18 @@ def parseBaseType : P Ty := fun i => (knot (i.length + 1)).bt i
 /-- `function_input_type(input)` -/
 def parseFunctionIoType : P Ty := fun i => functionIoType (knot (i.length + 1)) i
 
-/-- `type_alias` -/
+/-- the patched `base_type(input)` -/
+def parseBaseTypeF : P Ty := fun i => (knotF (i.length + 1)).bt i
+
+/-- the patched `function_input_type(input)` -/
+def parseFunctionIoTypeF : P Ty := fun i => functionIoTypeF (knotF (i.length + 1)) i
+
+/-- `type_alias` (over the patched `type_definition`, which is the same function:
+    `partial_or_group_factored_eq`) -/
 def typeAlias : P Alias :=
   bind (seq (pchar '\'') (opt identifier)) fun name =>
     bind (opt (delimited (pchar '<') (sepList1 commaWs0 typeName) (pchar '>'))) fun ps =>
-      seq (seq ws0 (seq (pchar '=') ws0)) (pmap parseType fun t => ⟨name, ps.getD [], t⟩)
+      seq (seq ws0 (seq (pchar '=') ws0)) (pmap parseTypeF fun t => ⟨name, ps.getD [], t⟩)
 
 /-! ### The tail of `program` after a leading alias
 
